@@ -62,6 +62,12 @@ func registerTime(m *Machine) {
 		m.fixedClock = a[0].(*Term).IsTrue()
 		return nil
 	}
+	// vfPreempt(on): forced context switches are explored only while on (default on); lets a
+	// harness keep its sequential set-up phase out of the schedule exploration
+	I["vfPreempt"] = func(m *Machine, fr *frame, a []Value, _ *ssa.CallCommon) Value {
+		m.preemptOff = !a[0].(*Term).IsTrue()
+		return nil
+	}
 	I["time.Now"] = func(m *Machine, fr *frame, a []Value, _ *ssa.CallCommon) Value { return m.timeNow() }
 	I["time.Unix"] = func(m *Machine, fr *frame, a []Value, _ *ssa.CallCommon) Value {
 		sec, nsec := a[0].(*Term), a[1].(*Term)
